@@ -97,13 +97,19 @@ func (s bitmap64) And(provider Provider[uint64]) {
 		s.bitmap.And(typedProvider.bitmap)
 
 	case Duplex[uint64]:
+		// Collect the values to drop first: removing from the bitmap while iterating it invalidates the
+		// iterator, which then skips values and leaves a wrong result behind.
+		removals := roaring64.New()
+
 		s.Each(func(nextValue uint64) bool {
 			if !typedProvider.Contains(nextValue) {
-				s.Remove(nextValue)
+				removals.Add(nextValue)
 			}
 
 			return true
 		})
+
+		s.bitmap.AndNot(removals)
 	}
 }
 func (s bitmap64) Or(provider Provider[uint64]) {
@@ -135,12 +141,18 @@ func (s bitmap64) AndNot(provider Provider[uint64]) {
 		s.bitmap.AndNot(typedProvider.bitmap)
 
 	case Duplex[uint64]:
+		// Collect the values to drop first: removing from the bitmap while iterating it invalidates the
+		// iterator, which then skips values and leaves a wrong result behind.
+		removals := roaring64.New()
+
 		s.Each(func(nextValue uint64) bool {
 			if typedProvider.Contains(nextValue) {
-				s.Remove(nextValue)
+				removals.Add(nextValue)
 			}
 
 			return true
 		})
+
+		s.bitmap.AndNot(removals)
 	}
 }
